@@ -56,7 +56,7 @@ for fixes, inv in ((["once"], ("PrevUntouched", "ExactFold", "Resumes")), (["dee
     expect("Calib fixes %-20s all invariants hold" % fixes, not r.violated and not r.error, str(r.violated))
 
 for fixes, want in ((["qsvcopy"], False), ([], True)):
-  c = dict(NQ="2", Recipes='{"RA", "RB"}', Policies='{"P0"}', Datasets='{"D1"}', Names='{"m1"}', MaxLen="4", MaxCals="2",
+  c = dict(NQ="2", Recipes='{"RA", "RB"}', Policies='{"P0"}', Datasets='{"D1"}', EmptyData='{}', Names='{"m1"}', MaxLen="4", MaxCals="2",
            LoadOutcome='(<<"RA", "P0">> :> <<"ok", "RA">> @@ <<"RB", "P0">> :> <<"ok", "RB">>)', NeedsCal='("RA" :> TRUE @@ "RB" :> TRUE)',
            WritesStats='(<<"RA", "P0">> :> TRUE @@ <<"RB", "P0">> :> FALSE)', StatsOf='(<<"RA", "P0">> :> {"FC", "TANH"} @@ <<"RB", "P0">> :> {"FC"})',
            Fixes=tlc.tla_str_set(fixes))
